@@ -1,4 +1,4 @@
-import BufProofs.Lemmas.ManagedLemmas
+import BufProofs.Lemmas.ManagedSweepLemmas
 /-
   C18 — managed mode rewrites only what it governs.
 
@@ -386,7 +386,9 @@ theorem sweep_complete (fixed : Bool) (mk : List (List Nat)) (locs : List Loc) (
     PARTIAL in one respect: for a FieldOptions location (`[…, 8]`) only the upper bound is
     proved (it can go only if one of the locations under it went); the exact condition of the
     code ("and no location registered under it stays", with the trie's first-ancestor rule) is
-    tied by correspondence and by the harness oracle on compiler-shaped source info. -/
+    proved by `modify_sweep_exact` below for compiler-shaped source info (`RootsFirst`); for
+    other shapes (a FieldOptions location repeated, or listed after the locations inside it)
+    it is tied by correspondence. -/
 theorem modify_sweep_exact_partial (p : Bool) (cfg : Config) (img : List File) {f f' : File}
     (herr : (modifyWith true p cfg img).err = false) (h : Out p cfg img f f') :
     ∃ rm : List Nat, f'.locs = removeIndices f.locs rm ∧
@@ -434,6 +436,103 @@ theorem modify_sweep_exact_partial (p : Bool) (cfg : Config) (img : List File) {
           exact (sweep_complete true _ _ _ hs).1 k loc hk ((hch _).mpr hc)
         · intro k loc hk hc hf
           exact (sweep_complete true _ _ _ hs).2 k loc hk ((hch _).mpr hc) hf
+
+/-! ### locations deeper than one element below an options message -/
+
+/-- `getPathType` on deep paths: whatever lies below a FieldOptions location `r` (`field path
+    ++ [8]`) — one element below (`r ++ [6]`, jstype), two (`r ++ [50000, 1]`: a message-typed
+    custom option set through a sub-field; `r ++ [50003, 0]`: an element of a repeated
+    option), or more (`r ++ [50002, 3, 3, 0]`) — is classified as a field option, so a
+    location that stays registers with its FieldOptions parent whatever its depth. -/
+theorem path_below_field_options_is_field_option {r d : List Nat}
+    (hr : pathType r = .fieldOptionsRoot) (hp : properPrefix r d = true) :
+    pathType d = .fieldOption := pathType_below_root hr hp
+
+/-- The parent rule, EXACT, on compiler-shaped source info (`RootsFirst`: a FieldOptions
+    location occurs once and before the locations inside it): the sweeper removes a
+    FieldOptions location iff at least one location inside it is removed AND every location
+    inside it — at any depth — is removed.  In particular a FieldOptions location with a
+    surviving option location inside it (a custom option's sub-field, a repeated option's
+    element) survives. -/
+theorem sweep_parent_exact {mk : List (List Nat)} {locs : List Loc} {rm : List Nat}
+    (hrf : RootsFirst locs) (h : sweepRemoved true mk locs = some rm)
+    (r : Nat) (lr : Loc) (hr : locs[r]? = some lr) (hroot : pathType lr.path = .fieldOptionsRoot) :
+    r ∈ rm ↔
+      (∃ (j : Nat) (lj : Loc), locs[j]? = some lj ∧ properPrefix lr.path lj.path = true ∧ lj.path ∈ mk) ∧
+      (∀ (j : Nat) (lj : Loc), locs[j]? = some lj → properPrefix lr.path lj.path = true → lj.path ∈ mk) :=
+  sweepRemoved_root_iff hrf h r lr hr hroot
+
+/-- SWEEP, composed to `Modify`, EXACT on compiler-shaped source info (both preserve modes):
+    when `Modify` returns no error and the input file's location list is `RootsFirst`, the
+    output list is the input list minus a set `rm` of indices, and a location is in `rm` IF AND
+    ONLY IF
+    * its path is the path of an option whose value changed (`Changed`), or
+    * it is the entry immediately before a `Changed` file-option location (its `[8]` parent), or
+    * it is a FieldOptions location, some location inside it is `Changed`, and EVERY location
+      inside it (at any depth) is `Changed`.
+    Every other location survives: options that were not rewritten, custom options at any
+    depth, and the FieldOptions parents that still hold one of them. -/
+theorem modify_sweep_exact (p : Bool) (cfg : Config) (img : List File) {f f' : File}
+    (herr : (modifyWith true p cfg img).err = false) (h : Out p cfg img f f')
+    (hrf : RootsFirst f.locs) :
+    ∃ rm : List Nat, f'.locs = removeIndices f.locs rm ∧
+      ∀ (k : Nat) (loc : Loc), f.locs[k]? = some loc →
+        (k ∈ rm ↔
+          Changed f f' loc.path ∨
+          (∃ loc' : Loc, f.locs[k + 1]? = some loc' ∧ Changed f f' loc'.path ∧ isFileOptPath loc'.path = true) ∨
+          (pathType loc.path = .fieldOptionsRoot ∧
+            (∃ (j : Nat) (lj : Loc), f.locs[j]? = some lj ∧ properPrefix loc.path lj.path = true ∧
+              Changed f f' lj.path) ∧
+            (∀ (j : Nat) (lj : Loc), f.locs[j]? = some lj → properPrefix loc.path lj.path = true →
+              Changed f f' lj.path))) := by
+  cases he : cfg.enabled
+  · obtain ⟨i, h1, h2⟩ := h
+    rw [(disabled_mode_identity p cfg img he).1, h1] at h2
+    cases h2
+    refine ⟨[], (removeIndices_nil _).symm, ?_⟩
+    intro k loc _
+    constructor
+    · intro hk; simp at hk
+    · rintro (hc | ⟨_, _, hc, _⟩ | ⟨_, ⟨_, _, _, _, hc⟩, _⟩) <;> exact absurd hc (not_changed_self f _)
+  · obtain ⟨i, h1, h2⟩ := h
+    obtain ⟨l, rfl, hl⟩ := AllRel.get (modifyWith_ok true p cfg img he herr) i f f' h1 h2
+    simp only [modifyOptions_locs] at hl
+    have hch : ∀ q, q ∈ fileMarks p cfg f ↔
+        Changed f { modifyOptions p cfg f with locs := l } q := fun q =>
+      (fileMarks_iff_changed p cfg f q).trans (changed_congr rfl rfl q).symm
+    unfold sweepLocs at hl
+    split at hl
+    · rename_i hnil
+      cases hl
+      refine ⟨[], ?_, ?_⟩
+      · show f.locs = _; exact (removeIndices_nil _).symm
+      · intro k loc _
+        have hno : ∀ q, ¬ Changed f { modifyOptions p cfg f with locs := f.locs } q := by
+          intro q hc; have := (hch q).mpr hc; rw [hnil] at this; simp at this
+        constructor
+        · intro hk; simp at hk
+        · rintro (hc | ⟨_, _, hc, _⟩ | ⟨_, ⟨_, _, _, _, hc⟩, _⟩) <;> exact absurd hc (hno _)
+    · cases hs : sweepRemoved true (fileMarks p cfg f) f.locs with
+      | none => simp [hs] at hl
+      | some rm =>
+        simp only [hs, Option.map_some, Option.some.injEq] at hl
+        subst hl
+        refine ⟨rm, rfl, ?_⟩
+        intro k loc hk
+        constructor
+        · intro hmem
+          rcases sweep_sound _ _ _ hs k hmem with ⟨loc1, a, b⟩ | ⟨loc1, a, b, c⟩ | ⟨loc1, a, b, j, loc', c, d, e⟩
+          · rw [hk] at a; cases a; exact Or.inl ((hch _).mp b)
+          · exact Or.inr (Or.inl ⟨loc1, a, (hch _).mp b, c⟩)
+          · rw [hk] at a; cases a
+            have hall := ((sweep_parent_exact hrf hs k loc hk b).mp hmem).2
+            exact Or.inr (Or.inr ⟨b, ⟨j, loc', c, e, (hch _).mp d⟩,
+              fun j lj hj hp => (hch _).mp (hall j lj hj hp)⟩)
+        · rintro (hc | ⟨loc', a, hc, hf⟩ | ⟨hroot, ⟨j, lj, a, b, hc⟩, hall⟩)
+          · exact (sweep_complete true _ _ _ hs).1 k loc hk ((hch _).mpr hc)
+          · exact (sweep_complete true _ _ _ hs).2 k loc' a ((hch _).mpr hc) hf
+          · exact (sweep_parent_exact hrf hs k loc hk hroot).mpr
+              ⟨⟨j, lj, a, b, (hch _).mpr hc⟩, fun j lj hj hp => (hch _).mpr (hall j lj hj hp)⟩
 
 /-- Before the fix the sweeper also removed FieldOptions locations that never had a child
     (`[default = 5]`, `[json_name = "x"]`) of fields nobody touched, as soon as any option of
@@ -556,5 +655,30 @@ example : sweepRemoved true (fileMarks false exCfg exFile) exFile.locs = some [6
 
 -- (the hypothesis `err = false` of `modify_sweep_exact_partial` is the last conjunct of the
 -- concrete run above)
+
+-- `RootsFirst` (hypothesis of `sweep_parent_exact` / `modify_sweep_exact`) holds for the example
+example : RootsFirst exFile.locs := rootsFirst_of_check (by decide)
+
+-- deep paths: classification, and the regression family "jstype rewritten next to an option
+-- whose location runs two or more elements below the FieldOptions location": the jstype
+-- location goes, the FieldOptions parent and the deep locations stay; with jstype alone the
+-- parent goes too
+example : pathType [4, 0, 2, 0, 8] = .fieldOptionsRoot ∧ pathType [4, 0, 2, 0, 8, 6] = .fieldOption ∧
+    pathType [4, 0, 2, 0, 8, 50000, 1] = .fieldOption ∧ pathType [4, 0, 2, 0, 8, 50003, 0] = .fieldOption ∧
+    pathType [7, 1, 8, 50002, 3, 3, 0] = .fieldOption ∧ pathType [4, 0, 3, 1, 6, 0, 8, 19, 0] = .fieldOption ∧
+    pathType [4, 0, 7, 50020, 1] = .notFieldOption ∧ pathType [8, 50001, 1] = .notFieldOption := by decide
+
+example :
+    sweepRemoved true [[4, 0, 2, 0, 8, 6]]
+      [⟨[4, 0, 2, 0], 0⟩, ⟨[4, 0, 2, 0, 8], 1⟩, ⟨[4, 0, 2, 0, 8, 50000, 1], 2⟩, ⟨[4, 0, 2, 0, 8, 6], 3⟩] = some [3] ∧
+    sweepRemoved true [[4, 0, 2, 0, 8, 6]]
+      [⟨[4, 0, 2, 0], 0⟩, ⟨[4, 0, 2, 0, 8], 1⟩, ⟨[4, 0, 2, 0, 8, 6], 2⟩, ⟨[4, 0, 2, 0, 8, 50003, 0], 3⟩,
+       ⟨[4, 0, 2, 0, 8, 50003, 1], 4⟩] = some [2] ∧
+    sweepRemoved true [[4, 0, 2, 0, 8, 6]]
+      [⟨[4, 0, 2, 0], 0⟩, ⟨[4, 0, 2, 0, 8], 1⟩, ⟨[4, 0, 2, 0, 8, 6], 2⟩, ⟨[4, 0, 2, 1, 8], 3⟩,
+       ⟨[4, 0, 2, 1, 8, 50000, 1], 4⟩] = some [2, 1] := by decide
+
+example : RootsFirst [⟨[4, 0, 2, 0], 0⟩, ⟨[4, 0, 2, 0, 8], 1⟩, ⟨[4, 0, 2, 0, 8, 50000, 1], 2⟩, ⟨[4, 0, 2, 0, 8, 6], 3⟩] :=
+  rootsFirst_of_check (by decide)
 
 end BufProofs.C18
